@@ -307,7 +307,11 @@ func (p *service) processSubscribe(msg *message.SubscribeMessage) error {
 	for i, t := range topics {
 		rqos, err := p.topicsMgr.Subscribe(t, qos[i], &p.onpub)
 		if err != nil {
-			return err
+			// The filter or the requested QoS was rejected: say so in the SUBACK
+			// and carry on with the other filters of the request.
+			log.Warningf("(%s) Subscribing topic %q failed: %v", p.cid(), string(t), err)
+			retcodes = append(retcodes, message.QosFailure)
+			continue
 		}
 		p.sess.AddTopic(string(t), qos[i])
 
